@@ -257,9 +257,15 @@ def snapshot(opt):
 
     def island(isl):
         hof = [] if isl.hall_of_fame is None else [ind(h) for h in isl.hall_of_fame]
-        return dict(age=isl.generational_age, pop=[ind(p) for p in isl.population], hof=hof,
-                    evals=isl.get_fitness_evaluation_count(),
-                    diag=repr(isl.get_ea_diagnostic_info().summary))
+        d = dict(age=isl.generational_age, pop=[ind(p) for p in isl.population], hof=hof,
+                 evals=isl.get_fitness_evaluation_count(),
+                 diag=repr(isl.get_ea_diagnostic_info().summary))
+        if hasattr(isl, "_predictor_island"):
+            # a fitness-predictor island also owns a population of predictors and their evaluation counters
+            pi, pf = isl._predictor_island, isl._predictor_fitness_function
+            d["predictors"] = dict(age=pi.generational_age, pop=[ind(p) for p in pi.population],
+                                   evals=pi.get_fitness_evaluation_count(), point_evals=int(pf.point_eval_count))
+        return d
     if hasattr(opt, "islands"):
         d = dict(age=opt.generational_age, islands=[island(i) for i in opt.islands],
                  hof=[] if opt.hall_of_fame is None else [ind(h) for h in opt.hall_of_fame])
@@ -269,6 +275,7 @@ def snapshot(opt):
 
 def lossless_tests(nruns, seed):
     import copy
+    import dill
     import numpy as np
     from bingo.evolutionary_optimizers.evolutionary_optimizer import load_evolutionary_optimizer_from_file
     from bingo.evolutionary_optimizers.serial_archipelago import SerialArchipelago
@@ -278,7 +285,7 @@ def lossless_tests(nruns, seed):
     shutil.rmtree(work, ignore_errors=True)
     os.makedirs(work)
     rng = random.Random(seed)
-    out = dict(runs=0, viol=[], samples=[])
+    out = dict(runs=0, viol=[], samples=[], deep_state_touched_by_dump=0)
     for r in range(nruns):
         s = rng.randrange(10 ** 6)
         kind = ["island-values", "island-agraph", "archipelago-values", "predictor-values"][r % 4]
@@ -300,7 +307,14 @@ def lossless_tests(nruns, seed):
         g1, g2 = rng.randint(1, 4), rng.randint(1, 4)
         opt.evolve(g1)
         path = os.path.join(work, "t.pkl")
+        deep_pre = dill.dumps(opt)
         opt.dump_to_file(path)
+        # hidden state (e.g. the predictor island's point counters) decides later generations: when the dump touched any of it,
+        # follow both optimizers for many more generations to let a divergence show
+        touched = dill.dumps(opt) != deep_pre
+        out["deep_state_touched_by_dump"] += int(touched)
+        if touched:
+            g2 = 16
         before = snapshot(opt)
         loaded = load_evolutionary_optimizer_from_file(path)
         after = snapshot(loaded)
@@ -352,6 +366,7 @@ def check(rep, proof):
         samples=[dict(scenario=results[0]["scenario"], k=results[0]["k"], observed=results[0]["out"])] + loss["samples"][:2],
         correspondence=dict(crash_points=len(results), disagreements=len(bad), scenarios=len(scenarios)),
         lossless_test=dict(runs=loss["runs"], violations=len(loss["viol"]),
+                           dumps_that_changed_the_serialised_state=loss["deep_state_touched_by_dump"],
                            note="differential test, not a theorem: dill is not modelled"),
         oracle_violations=len(oracle_bad) + len(loss["viol"]),
     )
